@@ -28,7 +28,7 @@ import common  # noqa: E402
 LEVEL = 'other'
 LEAN_MODULES = ['MpycV.Props.C01', 'MpycV.Props.C01Eval']
 LEAN_NAMESPACES = ['MpycV.C01']
-REQUIRED_THEOREMS = ['toft_prod_zero_iff', 'lcm_partial', 'gcdext_partial', 'inverse_partial', 'sgn_lt', 'sgn_eq', 'sgn_sign', 'lsb_correct', 'mod_correct', 'divmod_python',
+REQUIRED_THEOREMS = ['toft_prod_zero_iff', 'lcm_partial', 'gcdext_partial', 'inverse_partial', 'sgn_lt', 'sgn_eq', 'sgn_sign', 'lsb_correct', 'mod_correct', 'divmod_python', 'mod_negative_divisor',
                      'isZeroPublic_correct', 'prodTree_eq_prod', 'allTree_eq', 'any_correct', 'pow_correct',
                      'ifElse_correct', 'ifSwap_correct', 'abs_correct', 'matrixProd_symmetric_index',
                      'divstep_invariant', 'gcd_of_terminated', 'gcd_partial', 'gcd_terminates_table', 'divsteps_bezout',
